@@ -189,8 +189,9 @@ def known_findings():
     for line in open(p):
         line = line.strip()
         if line.startswith("known:"):
-            f = dict(kv.split("=", 1) for kv in line.split()[1:4] if "=" in kv)
-            f["text"] = line[len("known:"):].strip()
+            toks = line.split()
+            f = dict(kv.split("=", 1) for kv in toks[1:4] if "=" in kv)
+            f["text"] = "key=%s %s" % (f.get("key", "?"), " ".join(toks[4:]))
             known.append(f)
         elif line.startswith("fixed:"):
             fixed.append(line)
@@ -318,7 +319,7 @@ def check(pid, tier, seed):
         results = replay_files(run, spec, bins, files + list(known_paths))
         for path, (status, msg) in results.items():
             if path in known_paths:
-                if status == "FAIL":
+                if status == "FAIL" or (status == "EXCLUDED" and msg.startswith("known:")):
                     known_lines.append("KNOWN-FINDING: property=%s %s" % (pid, known_paths[path]["text"]))
                 else:
                     log("note: known finding %s no longer reproduces (%s)" % (known_paths[path].get("key"), status))
@@ -427,7 +428,7 @@ def merge_evidence(pid, tier, seed, run, spec, wall, nviol, nreg, inconclusive, 
             if len(u["samples"]) < 8:
                 u["samples"].append(s)
         for kk, vv in (part.get("extra") or {}).items():
-            if isinstance(vv, (int, float)) and not isinstance(vv, bool):
+            if isinstance(vv, (int, float)) and not isinstance(vv, bool) and not kk.startswith("max_"):
                 u["extra"][kk] = u["extra"].get(kk, 0) + vv
             else:
                 u["extra"][kk] = vv
